@@ -16,7 +16,7 @@ def gen_program(rng, n=18, io=True, blocks=True, calls=True, eidi=True):
         code.extend(bs)
     emit([0x31, 0x00, 0xF0])  # LD SP,F000
     for _ in range(n):
-        k = rng.below(16)
+        k = rng.below(17)
         if k == 0:
             emit([rng.choice([0x06, 0x0E, 0x16, 0x1E, 0x26, 0x2E, 0x3E]), rng.below(256)])
         elif k == 1:
@@ -53,6 +53,12 @@ def gen_program(rng, n=18, io=True, blocks=True, calls=True, eidi=True):
             emit([rng.choice([0xDD, 0xFD]), rng.choice([0x23, 0x2B, 0x24, 0x2C, 0x7C, 0x65])])
         elif k == 14:
             emit([0x18, 0x01]); emit([0x76])  # JR +1 over a HALT
+        elif k == 16:
+            # BIT n,(IX+d) / BIT n,(IY+d) / BIT n,(HL): read-only, but they exercise whatever the CPU remembers between them
+            if rng.chance(1, 2):
+                emit([rng.choice([0xDD, 0xFD]), 0xCB, rng.below(256), 0x46 + 8 * rng.below(8)])
+            else:
+                emit([0xCB, 0x46 + 8 * rng.below(8)])
         else:
             emit([rng.choice([0x00, 0x07, 0x0F, 0x17, 0x1F, 0x27, 0x2F, 0x37, 0x3F, 0x08, 0xD9, 0xEB])])
     halt = ORG + len(code)
